@@ -4,6 +4,8 @@ package leader
 
 import "time"
 
+var vpOtherPrio int // priority stored in the foreign record that vpFollowingInstance starts next to
+
 type vpFollowerScn struct {
 	st    *vpStore
 	kv    *vpKV
@@ -21,7 +23,7 @@ func vpFollowingInstance(H time.Duration, mod func(cfg *ElectionConfig)) *vpFoll
 	s := &vpFollowerScn{H: H}
 	s.st = vpNewStore("g", 0)
 	s.st.watchStopYield = vpC06StopYield
-	s.st.write("env:other", "create", vpRecMk("other", "tok-other", 0), false, 0)
+	s.st.write("env:other", "create", vpRecMk("other", "tok-other", vpOtherPrio), false, 0)
 	s.kv = vpHandle(s.st, "a")
 	cfg := vpBaseConfig("a", H, 3*H)
 	cfg.ValidationInterval = time.Hour
@@ -57,11 +59,27 @@ func vpC07Leftover(fixedRand bool) {
 	if fixedRand {
 		vpSetOpt("rand-fixed", 1) // rand.Float64() = 0.5: jitter 55ms, backoffs 50/100/200ms exactly
 	}
-	s := vpFollowingInstance(H, nil)
+	takeover := fixedRand && vpChoose("takeover-enabled", 2) == 1
+	vpOtherPrio = 0
+	if takeover {
+		vpOtherPrio = 9 // the owner cannot be preempted by the instance (priority 5): it has to wait for the vacancy
+	}
+	s := vpFollowingInstance(H, func(cfg *ElectionConfig) {
+		if takeover {
+			cfg.Priority = 5
+			cfg.AllowPriorityTakeover = true
+		}
+	})
+	vpOtherPrio = 0
+	if takeover {
+		s.kv.ackYield = true // operations of concurrent rounds interleave between application and response
+	}
 	go func() {
 		vpDelay("vacate", 0, 600*time.Millisecond)
-		s.st.write("env:other", "delete", nil, true, 0)
-		vpEvent("vacated")
+		if s.st.live() && s.st.writer == "env:other" {
+			s.st.write("env:other", "delete", nil, true, 0)
+			vpEvent("vacated")
+		}
 	}()
 	time.Sleep(1300 * time.Millisecond)
 	vpQuiesce()
@@ -126,4 +144,22 @@ func vpH_C07_T_stale_events() {
 	vpAssert("C07.no-demote-callback", s.cb.demotes == 0)
 	vpAssert("C07.token-stable", s.e.Token() == tok)
 	vpAssert("C07.owner-stable", s.st.live() && vpRecID(s.st.val) == "a" && vpRecTok(s.st.val) == tok)
+}
+
+// vpH_C07_T_validation: fault-free leader whose periodic validation runs next to its heartbeats (the two tickers
+// coincide), every store operation with explorer-ordered legs and a symbolic latency below H/2: never demoted.
+func vpH_C07_T_validation() {
+	tm := vpTimings[0]
+	s := vpLeadingInstance(tm, 0, func(cfg *ElectionConfig) { cfg.ValidationInterval = tm.H })
+	s.st.ttl = 0
+	s.kv.ackYield = true
+	s.kv.lat = tm.H/2 - 1
+	s.kv.latResp = tm.H/2 - 1
+	s.kv.opLeft = 8
+	tok := s.e.Token()
+	time.Sleep(2*tm.H + tm.H/2 + tm.H)
+	vpQuiesce()
+	vpCover("C07.validation")
+	vpAssert("C07.no-spurious-edge", s.e.IsLeader() && s.cb.demotes == 0)
+	vpAssert("C07.token-stable", s.e.Token() == tok)
 }
